@@ -21,7 +21,7 @@ func init() {
 		Rule: "user sets are drawn from an 8-spec pool containing DNs that are prefixes of one another (cn=a, cn=ab, 'cn=a,dc=x'), a duplicate DN with a different password, a user without a password attribute, " +
 			"an empty first password, several password values, and a case variant; EXHAUSTIVE for all user sets of size <= 2 x 9 bind DNs (pool DNs, case variants, empty, bytes) x 5 passwords (incl. empty) x both " +
 			"AllowAnonymousBind settings, plus random larger sets, plus user sets reached through sequences of LDAP Add and Delete requests, over plain, TLS and StartTLS-upgraded connections (raw client; go-ldap as a second client on a sample). " +
-			"Oracle: result code == (pw==\"\" && anon) || exists user u with u.DN == dn and first password value == pw ? 0 : 49. Set* calls happen only between binds. The pool also has a 200-byte password (tried with its 128-byte prefix and another tail), passwords with NUL bytes, an entry named like a userPrincipalName login (the directory runs with Defaults.UPNDomain), entries built as literals or with values assigned after construction; the directory's response controls cycle through none / Behera grace, expiry and three error codes / a critical string control. " +
+			"Oracle: result code == (pw==\"\" && anon) || exists user u with u.DN == dn and first password value == pw ? 0 : 49. Set* calls happen only between binds. The pool also has a 200-byte password (tried with its 128-byte prefix and another tail), passwords with NUL bytes, an entry named like a userPrincipalName login (the directory runs with Defaults.UPNDomain), entries built as literals or with values assigned after construction, a password that looks like a BER-wrapped string (and BER-wrapped forms of other passwords as bind attempts), group entries that carry a password attribute (one of them with the DN of a pool user); the directory's response controls cycle through none / Behera grace, expiry and three error codes / a critical string control. " +
 			"distinct_nontrivial = distinct (user set, anon, dn, password) cases",
 		Assume: []string{"the directory is configured through SetUsers / SetAllowAnonymousBind between binds (sequential use)"},
 		Phases: func(tier string, seed int64) []Phase {
@@ -48,14 +48,15 @@ var c19Pool = []c19User{
 	{"CN=A", []string{"pa"}, "case variant"},
 	{"cn=long", []string{c19Long}, "password longer than 128 bytes"},
 	{"cn=bin", []string{"p\x00q"}, "password with a NUL inside"},
+	{"cn=ber", []string{"\x04\x02pa"}, "a password that looks like a BER octet string wrapping 'pa'"},
 	{"userPrincipalName=upn@example.com,ou=people,dc=example,dc=org", []string{"pu"}, "an entry named the way NewUsers names them for a UPN domain (the directory is started with Defaults.UPNDomain = example.com)"},
 }
 
 // c19Long: a 200-byte password; its 128-byte prefix and a variant with a different tail are tried as well
 var c19Long = strings.Repeat("0123456789abcdef", 12) + "tail-one"
 
-var c19DNs = []string{"cn=a", "cn=ab", "cn=a,dc=x", "CN=A", "cn=", "", "cn=e", "cn=d", "cn=c", "\xffcn=a", "cn=long", "cn=bin", "upn@example.com", "upn", "userPrincipalName=upn@example.com,ou=people,dc=example,dc=org"}
-var c19PWs = []string{"pa", "pb", "", "p2", "other", "p1", "pa\x00", "\x00", "p", "p\x00q", "p\x00", c19Long, c19Long[:128], c19Long[:192] + "tail-two", c19Long + "\x00", "pu"}
+var c19DNs = []string{"cn=a", "cn=ab", "cn=a,dc=x", "CN=A", "cn=", "", "cn=e", "cn=d", "cn=c", "\xffcn=a", "cn=long", "cn=bin", "cn=ber", "cn=group-with-password,ou=groups,dc=example,dc=org", "upn@example.com", "upn", "userPrincipalName=upn@example.com,ou=people,dc=example,dc=org"}
+var c19PWs = []string{"pa", "pb", "", "p2", "other", "p1", "pa\x00", "\x00", "p", "p\x00q", "p\x00", c19Long, c19Long[:128], c19Long[:192] + "tail-two", c19Long + "\x00", "pu", "\x04\x02pa", "\x1b\x02pa", "\x04\x02pb", "gp"}
 
 func c19Pred(users []c19User, anon bool, dn, pw string) bool {
 	if pw == "" && anon {
@@ -201,6 +202,9 @@ func c19Run(c *Ctx, transport string) {
 	if cs, err := gldap.NewControlString("1.2.3.4", gldap.WithCriticality(true), gldap.WithControlValue("locked")); err == nil {
 		ctlSets = append(ctlSets, []gldap.Control{cs})
 	}
+	// a GROUP entry that carries a password attribute: groups are not users, nobody binds as one
+	td.SetGroups(gldap.NewEntry("cn=group-with-password,ou=groups,dc=example,dc=org", map[string][]string{"member": {"cn=a"}, "password": {"gp"}}),
+		gldap.NewEntry("cn=a", map[string][]string{"password": {"gp"}}))
 	checks := 0
 	check := func(users []c19User, anon bool, setSig string) bool {
 		td.SetUsers(c19Entries(users)...)
